@@ -17,9 +17,13 @@ def ev(node, env):
         if k in env:
             return env[k]
     if isinstance(node, ast.Constant):
-        if isinstance(node.value, (int, bool, str)) or node.value is None:
+        if isinstance(node.value, (int, bool, str, bytes)) or node.value is None:
             return node.value
         raise Unsupported('constant %r' % (node.value,))
+    if isinstance(node, ast.List):
+        return [ev(e, env) for e in node.elts]
+    if isinstance(node, ast.Dict) and all(k is not None for k in node.keys):
+        return {ev(k, env): ev(v, env) for k, v in zip(node.keys, node.values)}
     if isinstance(node, ast.Name):
         if node.id in env:
             return env[node.id]
@@ -125,6 +129,14 @@ def ev(node, env):
             return len(args[0])
         if node.func.id == 'bool' and len(args) == 1:
             return bool(args[0])
+        if node.func.id in ('bytearray', 'bytes') and len(args) <= 1:
+            if not args:
+                return b''
+            if isinstance(args[0], (list, tuple)) and all(isinstance(x, int) and 0 <= x <= 255 for x in args[0]):
+                return bytes(args[0])
+            if isinstance(args[0], bytes):
+                return args[0]
+            raise Unsupported('bytes(...) of %r' % (args[0],))
     if isinstance(node, ast.Call) and isinstance(node.func, ast.Attribute) and node.func.attr == 'bit_length' and not node.args:
         return ev(node.func.value, env).bit_length()
     if isinstance(node, ast.Tuple):
@@ -132,8 +144,10 @@ def ev(node, env):
     if isinstance(node, ast.Subscript) and not isinstance(node.slice, ast.Slice):
         b = ev(node.value, env)
         i = ev(node.slice, env)
-        if isinstance(b, (list, tuple)) and isinstance(i, int) and -len(b) <= i < len(b):
+        if isinstance(b, (list, tuple, bytes)) and isinstance(i, int) and -len(b) <= i < len(b):
             return b[i]
+        if isinstance(b, dict):
+            return b[i]       # KeyError propagates: the caller decides what a missing key means
     raise Unsupported(ast.dump(node)[:80])
 
 
